@@ -8,7 +8,9 @@
 //	                       the function-value branch of call, in order of precedence; cv*: the shape of callVariadic itself
 //	deferCall / deferWrap* how runDeferred calls a deferred record and whether the defer arms of callBin / call wrap the
 //	                       function with deferCallSlice when the call has an ellipsis (what the deferred record holds)
-//	wrapRecvAtCreation     genFunctionWrapper reads the method receiver outside the reflect.MakeFunc literal
+//	wrapRecvAtCreation     genFunctionWrapper binds a receiver read from the script outside the reflect.MakeFunc literal
+//	wrapRecvHeldAtCall     … and reaches the receiver of a record without node (the value held by an interface) inside it
+//	ifaceWrapRecvHeld      genInterfaceWrapper gives its method wrappers such a record (a copy of the converted value)
 //	assign* / return* / default* / nestedReadIdx   index expressions of the result stores per context
 //	wrap* / getFunc*       shape of genFunctionWrapper / getFunc: frame allocation, argument base, `fr.data[lo:hi]`
 //
@@ -764,7 +766,19 @@ func main() {
 		}
 
 		// ---- genFunctionWrapper / getFunc
-		wrapFrame := leanBool(find(gw, func(n ast.Node) bool { return str(n) == "fr := newFrame(f, len(def.types), f.runid())" }) != nil)
+		// the frame of an invocation: newCallFrame(anc, length) (= newFrame with the run id and cancellation channel of the root
+		// frame, interp/interp.go, fingerprinted) since 4a41b28, newFrame(anc, length, anc.runid()) before
+		stmtIn := func(fd *ast.FuncDecl, stmts ...string) string {
+			for _, st := range stmts {
+				if find(fd, func(n ast.Node) bool { return str(n) == st }) != nil {
+					return st
+				}
+			}
+			return stmts[0]
+		}
+		wrapFrameStmt := stmtIn(gw, "fr := newCallFrame(f, len(def.types))", "fr := newFrame(f, len(def.types), f.runid())")
+		getFuncFrameStmt := stmtIn(gf, "fr2 := newCallFrame(fr, len(n.types))", "fr2 := newFrame(fr, len(n.types), fr.runid())")
+		wrapFrame := leanBool(find(gw, func(n ast.Node) bool { return str(n) == wrapFrameStmt }) != nil)
 		wrapBase, wrapShift := ".unrecognised", "1000000"
 		for _, n := range findAll(gw, func(n ast.Node) bool {
 			as, ok := n.(*ast.AssignStmt)
@@ -806,20 +820,65 @@ func main() {
 			}
 			return leanBool(len(in) == 1)
 		}
-		wrapPerCall := perCall(gw, "fr := newFrame(f, len(def.types), f.runid())")
-		getFuncPerCall := perCall(gf, "fr2 := newFrame(fr, len(n.types), fr.runid())")
-		// the method receiver is read (`rcvr(f)`) when the wrapper is made, outside the literal given to reflect.MakeFunc, and the
-		// literal stores that value (`d[numRet].Set(recv)`)
-		recvAtCreation := "false"
+		wrapPerCall := perCall(gw, wrapFrameStmt)
+		getFuncPerCall := perCall(gf, getFuncFrameStmt)
+		// The method receiver. `rcvr(f)` is read by the helper closure bindRecv (or, before 32d4f06, in line). A receiver read
+		// from the script (`n.recv.node != nil`) is bound when the wrapper is made: `recv = bindRecv()` outside the literal given to
+		// reflect.MakeFunc, `d[numRet].Set(recv)` inside. A receiver record without node (`late = n.recv.node == nil`: the value
+		// held by an interface) is reached at each call: `case late: d[numRet].Set(bindRecv())` inside the literal.
+		recvAtCreation, recvHeldAtCall := "false", "false"
 		if mk := find(gw, func(n ast.Node) bool {
 			ce, ok := n.(*ast.CallExpr)
 			return ok && str(ce.Fun) == "reflect.MakeFunc" && len(ce.Args) == 2
 		}); mk != nil {
 			if lit, ok := mk.(*ast.CallExpr).Args[1].(*ast.FuncLit); ok {
 				isRcvr := func(n ast.Node) bool { ce, ok := n.(*ast.CallExpr); return ok && str(ce.Fun) == "rcvr" }
+				isBind := func(n ast.Node) bool { ce, ok := n.(*ast.CallExpr); return ok && str(ce.Fun) == "bindRecv" }
 				all, in := findAll(gw, isRcvr), findAll(lit, isRcvr)
 				stored := find(lit, func(n ast.Node) bool { return nospace(str(n)) == "d[numRet].Set(recv)" }) != nil
+				var helper *ast.FuncLit
+				if as := find(gw, func(n ast.Node) bool {
+					a, ok := n.(*ast.AssignStmt)
+					return ok && a.Tok == token.DEFINE && len(a.Lhs) == 1 && str(a.Lhs[0]) == "bindRecv"
+				}); as != nil {
+					helper, _ = as.(*ast.AssignStmt).Rhs[0].(*ast.FuncLit)
+				}
 				switch {
+				case helper != nil:
+					// the helper is declared outside the literal and is the only reader of the receiver
+					inHelper := findAll(helper, isRcvr)
+					bindAll, bindIn := findAll(gw, isBind), findAll(lit, isBind)
+					early := findAll(gw, func(n ast.Node) bool {
+						is, ok := n.(*ast.IfStmt)
+						return ok && is.Else == nil && len(is.Body.List) == 1 && nospace(str(is.Body.List[0])) == "recv=bindRecv()" &&
+							(str(is.Cond) == "rcvr != nil && !late" || str(is.Cond) == "rcvr != nil")
+					})
+					earlyInLit := findAll(lit, func(n ast.Node) bool { return nospace(str(n)) == "recv=bindRecv()" })
+					lateDef := find(gw, func(n ast.Node) bool { return nospace(str(n)) == "late=n.recv.node==nil" }) != nil
+					var lateArm *ast.CaseClause
+					for _, n := range findAll(lit, func(n ast.Node) bool {
+						cc, ok := n.(*ast.CaseClause)
+						return ok && len(cc.List) == 1 && str(cc.List[0]) == "late"
+					}) {
+						lateArm = n.(*ast.CaseClause)
+					}
+					lateStores := lateArm != nil && len(lateArm.Body) == 2 && nospace(str(lateArm.Body[0])) == "d[numRet].Set(bindRecv())" &&
+						nospace(str(lateArm.Body[1])) == "d=d[numRet+1:]"
+					switch {
+					case len(all) != 1 || len(inHelper) != 1 || len(in) != 0:
+						note("genFunctionWrapper: %d reads of the receiver, %d in bindRecv, %d inside the MakeFunc literal", len(all), len(inHelper), len(in))
+					case len(early) == 1 && len(earlyInLit) == 0 && stored && len(bindIn) == 0 && len(bindAll) == 1:
+						recvAtCreation = "true" // no late arm at all
+						if lateDef {
+							note("genFunctionWrapper: `late` is set but no arm uses it")
+						}
+					case len(early) == 1 && len(earlyInLit) == 0 && stored && lateDef && lateStores && len(bindIn) == 1 && len(bindAll) == 2 &&
+						str(early[0].(*ast.IfStmt).Cond) == "rcvr != nil && !late":
+						recvAtCreation, recvHeldAtCall = "true", "true"
+					default:
+						note("genFunctionWrapper: bindRecv is called %d times (%d inside the MakeFunc literal), early binding %d, late arm %v",
+							len(bindAll), len(bindIn), len(early), lateStores)
+					}
 				case len(all) == 1 && len(in) == 0 && stored:
 					recvAtCreation = "true"
 				case len(all) == 1 && len(in) == 1:
@@ -828,6 +887,39 @@ func main() {
 					note("genFunctionWrapper: %d reads of the receiver (%d inside the MakeFunc literal), stored: %v", len(all), len(in), stored)
 				}
 			}
+		}
+		// genInterfaceWrapper: the receiver record of the method wrappers of an interface conversion — `&receiver{val: rv, index: …}`
+		// with `rv := copyDeferArg(valueInterfaceValue(v))` (the value HELD by the interface, no node) since 32d4f06,
+		// `&receiver{n, v, …}` (the converted expression's node) before
+		ifaceHeld := "false"
+		if gi := common.FindFunc(f, "", "genInterfaceWrapper"); gi != nil {
+			var held, byNode, other int
+			for _, n := range findAll(gi, func(n ast.Node) bool {
+				a, ok := n.(*ast.AssignStmt)
+				return ok && a.Tok == token.ASSIGN && len(a.Lhs) == 1 && str(a.Lhs[0]) == "nod.recv"
+			}) {
+				rhs := nospace(str(n.(*ast.AssignStmt).Rhs[0]))
+				switch {
+				case strings.HasPrefix(rhs, "&receiver{val:rv,index:"):
+					held++
+				case strings.HasPrefix(rhs, "&receiver{n,v,"):
+					byNode++
+				default:
+					other++
+					note("genInterfaceWrapper: receiver record %s", rhs)
+				}
+			}
+			rvCopy := find(gi, func(n ast.Node) bool { return nospace(str(n)) == "rv:=copyDeferArg(valueInterfaceValue(v))" }) != nil
+			switch {
+			case held > 0 && byNode == 0 && other == 0 && rvCopy:
+				ifaceHeld = "true"
+			case held == 0 && byNode > 0 && other == 0:
+				ifaceHeld = "false"
+			default:
+				note("genInterfaceWrapper: %d receiver records by value, %d by node, copy of the held value: %v", held, byNode, rvCopy)
+			}
+		} else {
+			note("genInterfaceWrapper not found")
 		}
 		skipShort := leanBool(find(gw, func(n ast.Node) bool {
 			is, ok := n.(*ast.IfStmt)
@@ -863,8 +955,9 @@ func main() {
 			names [][2]string
 		}{
 			{"interp/value.go", [][2]string{{"", "genValueInterface"}, {"", "genValueInterfaceValue"}, {"", "valueInterfaceValue"}, {"", "genFuncValue"},
-				{"", "genValueAsFunctionWrapper"}, {"", "getConcreteValue"}, {"", "getBinValue"}, {"", "genValueArray"}, {"", "genValue"}}},
+				{"", "genValueAsFunctionWrapper"}, {"", "getConcreteValue"}, {"", "getBinValue"}, {"", "genValueArray"}, {"", "genValue"}, {"", "genValueRecv"}}},
 			{"interp/program.go", [][2]string{{"Interpreter", "Execute"}}},
+			{"interp/interp.go", [][2]string{{"", "newCallFrame"}, {"", "newFrame"}}},
 			{"interp/use.go", [][2]string{{"Interpreter", "Symbols"}, {"", "getWrapper"}, {"Interpreter", "Use"}}},
 			{"interp/scope.go", [][2]string{{"Interpreter", "Globals"}}},
 			{"interp/type.go", [][2]string{{"", "isEmptyInterface"}, {"", "isInterfaceSrc"}, {"", "isFuncSrc"}, {"", "isPtrSrc"}, {"", "isInterfaceBin"},
@@ -922,6 +1015,8 @@ def facts : Facts :=
     wrapFrameIsDefTypes := %s,
     wrapFramePerCall := %s,
     wrapRecvAtCreation := %s,
+    wrapRecvHeldAtCall := %s,
+    ifaceWrapRecvHeld := %s,
     getFuncFramePerCall := %s,
     wrapArgBase := %s,
     wrapRcvrShift := %s,
@@ -939,7 +1034,7 @@ end YaegiVerif.Generated.C07
 `, arms, common.LeanStrList(outerArms), recvGuard, rcvrCond, lo(variadicSub), argCmp, argElem, defCmp, defElem,
 			"["+strings.Join(callArms, ", ")+"]", "["+strings.Join(fvArms, ", ")+"]", cvGuard, cvCmp, lo(cvSub), cvThen, cvZero, cvElse,
 			deferCall, deferWrapBin, deferWrapCall, deferWrapKind, deferWrapVariadic, assignSrc, assignDst, retDst, retBase, defDst, nestedRead,
-			wrapFrame, wrapPerCall, recvAtCreation, getFuncPerCall, wrapBase, lo(wrapShift), lo(wLo), wHi, skipShort, lo(gLo), gHi, common.LeanStrList(notes), hashes)
+			wrapFrame, wrapPerCall, recvAtCreation, recvHeldAtCall, ifaceHeld, getFuncPerCall, wrapBase, lo(wrapShift), lo(wLo), wHi, skipShort, lo(gLo), gHi, common.LeanStrList(notes), hashes)
 		return src, nil
 	})
 }
